@@ -198,3 +198,22 @@ package db
 //@   assert before call#2 AddDelta: (!res(HasValue, 1, 0) || !res(hasPrivateKey, 1, 0)) && res(HasValue, 2, 0) ==> ctxIdent(arg0) == callarg(HasValue, 2, 0)
 //@   assert before call#1 hasPrivateKey: arg0 == res(Value, 1, 0) && callarg(Value, 1, 0) == res(FromContext, 1, 0) && callarg(HasValue, 1, 0) == res(FromContext, 1, 0)
 //@   tags C12
+//@
+//@ // ===== C06: nothing but transaction creation (and a few read-only administrative paths) touches the
+//@ // root store directly; every other store access of the API goes through the context transaction
+//@ discipline field DB.rootstore only-in newDB, (*DB).NewTxn, (*DB).NewConcurrentTxn, (*DB).Rootstore, (*DB).PrintDump, (*DB).Close, (*DB).VerifySignature, (*DB).publishDocUpdateEvent tags C06
+//@ // the transactions handed out are built by the datastore constructors of the matching kind
+//@ func (*DB).NewTxn -> (t, err)
+//@   assert before call#1 wrapDatastoreTxn: arg0 == res(NewTxnFrom, 1, 0) && arg1 == db
+//@   tags C06
+//@ func (*DB).NewConcurrentTxn -> (t, err)
+//@   assert before call#1 wrapDatastoreTxn: arg0 == res(NewConcurrentTxnFrom, 1, 0) && arg1 == db
+//@   tags C06 C16
+//@ // a document is marked clean only once its transaction has committed (a failed or discarded
+//@ // transaction must leave it dirty so that a retry writes it again)
+//@ discipline closure-calling (*client.Document).Clean only-arg-of (datastore.Txn).OnSuccess
+//@ extern (*client.Document).Clean(d)
+//@   requires committed
+//@   nodefault
+//@ func (*collection).save
+//@   tags C06
